@@ -16,6 +16,7 @@ EXPLANATION = (
     "(T-ACKOK) SYN-RECEIVED becomes ESTABLISHED exactly on the branch SND.UNA < SEG.ACK =< SND.NXT; (T-HEAPORD) the reordering heap's Ord for Segment is the reversed circular order of SEQ at every distance and base (shared with C12); (T-APPEND) the send and receive byte streams of the TCB grow only at their end; (T-RETX-ARM) the timeout branch of advance_time re-arms every queued segment, every element of the "
     "retransmission queue is built by Transmit::new (armed), and segments() emits exactly the armed ones; "
     "(T-SYNSENT, T-WINDOW) shared with C17. Breaking any of them breaks the stream for some admissible schedule. "
+    "(T-RECV / T-SEND) Tcb::receive hands over the buffered text in ESTABLISHED, FIN-WAIT-1/2 and CLOSE-WAIT and Tcb::send appends to the text to be segmentised in SYN-SENT, SYN-RECEIVED and ESTABLISHED; (T-ACCEPT) in the text-queueing step of process_segment RCV.NXT advances by exactly the number of octets appended to incoming.text and the skipped prefix is RCV.NXT - SEG.SEQ. "
     "Not decided: prefix/exactly-once/convergence themselves (schedules x byte strings need execution or a proof).")
 ASSUMPTIONS = ["BinaryHeap::peek followed by pop (no push in between) returns the same element"]
 TECHNIQUE = "static analysis: dominance / must-pass-through / data-dependence rules over rustc MIR (+ shared finite-domain model of process_segment)"
